@@ -436,13 +436,20 @@ pub fn run(opts: &Opts) -> i32 {
         v.push((Prior::BigSpan, Action::Sync));
         v
     };
+    // all abandon sweeps first (in-process, cheap), then the kill sweeps (one traced child process
+    // per point: slow when the machine is busy) - a tight budget then cuts the tail of the more
+    // expensive part only
+    let mut cases = vec![];
     for (prior, action) in plan {
         let c = prepare(prior, action);
         abandon_sweep(&rep, &c, if q { 499 } else { 97 });
         println!("[C06] {prior:?}/{action:?}: {} storage calls x 2 abandon kinds done ({:.1}s)", c.calls.len(), rep.elapsed());
+        rep.sample(json!({"prior": format!("{prior:?}"), "action": format!("{action:?}"), "storage_calls": c.calls.iter().take(60).collect::<Vec<_>>()}));
+        cases.push(c);
+    }
+    for c in cases {
         kill_sweep(&rep, &c, if q { 12 } else { 1000 });
-        println!("[C06] {prior:?}/{action:?}: kill sweep done, {} kill runs so far ({:.1}s)", rep.get("kill_runs"), rep.elapsed());
-        rep.sample(json!({"prior": format!("{prior:?}"), "action": format!("{action:?}"), "storage_calls": c.calls}));
+        println!("[C06] {:?}/{:?}: kill sweep done, {} kill runs so far ({:.1}s)", c.prior, c.action, rep.get("kill_runs"), rep.elapsed());
         let _ = std::fs::remove_dir_all(&c.dir);
     }
     rep.finish()
